@@ -121,7 +121,8 @@ func TestSelfJudge(t *testing.T) {
 		{"reset mid-session", ins(good, 10, good[15]), "reset-without-ended-stream"},
 		{"update dropped", del(good, 9), "delivery-not-in-stream-order"},
 		{"sync dropped", del(good, 12), "delivery-missing"},
-		{"update after reset", swap(good, 12, 15), "delivery-missing"},
+		{"sync after reset", ins(del(good, 12), 15, good[12]), "delivery-missing"},
+		{"sync after reset (late only)", ins(good, 16, good[12]), "delivery-outside-session"},
 		{"second connect", ins(good, 10, good[8]), "connect-twice"},
 		{"callback after remove", ins(good, 24, Ev{Tgt: "t0", Kind: kMonitorError, N: -1, At: 3 * s}), "callback-after-remove"},
 		{"callback for unknown name", ins(good, 5, Ev{Tgt: ghost, Kind: kReset, N: -1}), "callback-for-unknown-target"},
